@@ -489,6 +489,9 @@ func runC19(c *eng.Ctx) {
 		c.Check(eng.DominatedBy(f, run.Instr, d, nil), "defer<run", run.Instr, f, "the recover block is installed before the root stage runs", "")
 	})
 
+	// ---- 7b. the task's error is a latch: once a failure is recorded, no later event lowers it to "no error" ---------------------------
+	c.Rule("ERRFLOW", "query/context.baseTaskContext.err{latched}", func() { taskErrorLatched(c) })
+
 	// ---- 8a. a stage that was counted as pending is given back also when STARTING it panics --------------------------------------------
 	c.Rule("TYPESTATE", plT+".executeStage{a counted stage is completed when starting it panics}", func() {
 		f := c.Fn(plT + ".executeStage")
@@ -595,4 +598,54 @@ func isBoolConst(v ssa.Value, want bool) bool {
 		return false
 	}
 	return c.Value.String() == fmt.Sprint(want)
+}
+
+// taskErrorLatched: baseTaskContext.err is written by the response handlers (a leaf answered with an error) and by
+// Complete(err) (the root pipeline finished, err == nil when planning and sending went well); the waiting request reads
+// it after doneCh was closed.  The handlers and the pipeline callback run on different goroutines in no fixed order:
+// a store that can carry nil must not replace a recorded failure, or a failed shard becomes a successful (partial)
+// answer.  Decided per store: the stored value is provably non-nil, or the store is guarded by `ctx.err == nil`.
+func taskErrorLatched(c *eng.Ctx) {
+	p := c.P
+	errF := "query/context.baseTaskContext.err"
+	n := 0
+	for _, fn := range p.AllFuncs {
+		if !strings.HasPrefix(p.FuncKey(fn), "query/context.") {
+			continue
+		}
+		sts := p.SitesDirect(fn, eng.StoreField(errF))
+		if len(sts) == 0 {
+			continue
+		}
+		facts := p.MustFacts(fn)
+		for i, s := range sts {
+			st, ok := s.Instr.(*ssa.Store)
+			if !ok {
+				continue
+			}
+			n++
+			fs := facts.At(st)
+			nonNil := len(facts.Find(fs, "ne", func(_ string, v ssa.Value) bool { return eng.SameValue(v, st.Val) }, eng.DescIs("nil"))) > 0
+			switch x := eng.Unwrap(st.Val).(type) {
+			case *ssa.MakeInterface:
+				nonNil = true
+			case *ssa.UnOp:
+				if _, isG := x.X.(*ssa.Global); isG {
+					nonNil = true
+				}
+			case *ssa.Call:
+				if g := x.Common().StaticCallee(); g != nil && g.Pkg != nil && (g.Pkg.Pkg.Path() == "errors" && g.Name() == "New" || g.Pkg.Pkg.Path() == "fmt" && g.Name() == "Errorf") {
+					nonNil = true
+				}
+			}
+			unset := len(facts.Find(fs, "eq", func(_ string, v ssa.Value) bool {
+				in, ok := eng.Unwrap(v).(ssa.Instruction)
+				return ok && eng.LoadField(errF)(p, in)
+			}, eng.DescIs("nil"))) > 0
+			c.Check(nonNil || unset, fmt.Sprintf("%s[%d]", p.FuncKey(fn), i), st, fn,
+				"a store into the task's error either carries a non-nil error or happens only while no error is recorded: the pipeline's Complete(nil) and a leaf's error response arrive in either order, and the request must still fail",
+				"stores "+p.Desc(st.Val)+" (possibly nil) without `ctx.err == nil`; facts: "+strings.Join(facts.Render(fs), " ; "))
+		}
+	}
+	c.Check(n >= 3, "error-stores-found", nil, nil, "the response handlers and Complete record errors in baseTaskContext.err", fmt.Sprintf("%d stores", n))
 }
